@@ -4,8 +4,8 @@
   rectilinear grid inherits entry-wise closeness from its ordinates.
 -/
 import FcProofs.Lemmas.MeshEqual
-namespace Fc
-open Spec
+namespace Fc.C16
+open Fc Fc.Spec Fc.C03
 
 
 /-! ### structured grids: generated connectivity and points are well-formed -/
@@ -21,8 +21,8 @@ theorem uniform_map_const {α β} (l : List α) (f : α → List β) (w : Nat) (
 
 theorem reorderRow_length (ct : String) (row : List Nat) :
     (reorderRow ct row).length =
-      if ct == "QUAD" then Gen.reorderQuadPixel.length
-      else if ct == "HEXAHEDRON" then Gen.reorderHexVoxel.length else row.length := by
+      if ct == "QUAD" then Gen.C16.reorderQuadPixel.length
+      else if ct == "HEXAHEDRON" then Gen.C16.reorderHexVoxel.length else row.length := by
   unfold reorderRow
   split
   · simp
@@ -33,16 +33,16 @@ theorem structConn_uniform (ext : List Nat) (ct : String) : Uniform (structConn 
   simp only
   split
   · exact uniform_map_const _ _
-      (if ct == "QUAD" then Gen.reorderQuadPixel.length
-       else if ct == "HEXAHEDRON" then Gen.reorderHexVoxel.length else 2)
+      (if ct == "QUAD" then Gen.C16.reorderQuadPixel.length
+       else if ct == "HEXAHEDRON" then Gen.C16.reorderHexVoxel.length else 2)
       (fun t => by rw [reorderRow_length]; rfl)
   · exact uniform_map_const _ _
-      (if ct == "QUAD" then Gen.reorderQuadPixel.length
-       else if ct == "HEXAHEDRON" then Gen.reorderHexVoxel.length else 4)
+      (if ct == "QUAD" then Gen.C16.reorderQuadPixel.length
+       else if ct == "HEXAHEDRON" then Gen.C16.reorderHexVoxel.length else 4)
       (fun t => by rw [reorderRow_length]; rfl)
   · exact uniform_map_const _ _
-      (if ct == "QUAD" then Gen.reorderQuadPixel.length
-       else if ct == "HEXAHEDRON" then Gen.reorderHexVoxel.length else 8)
+      (if ct == "QUAD" then Gen.C16.reorderQuadPixel.length
+       else if ct == "HEXAHEDRON" then Gen.C16.reorderHexVoxel.length else 8)
       (fun t => by rw [reorderRow_length]; rfl)
   · exact uniform_nil
 
@@ -54,7 +54,7 @@ theorem rectPoints_width (xs ys zs : List Int) : ∀ r ∈ rectPoints xs ys zs, 
   rfl
 
 theorem wfEq_single (dim : Nat) (pts : List (List Int)) (ct : String) (rows : List (List Nat))
-    (hp : ∀ r ∈ pts, r.length = dim) (hu : Uniform rows) : (Mesh.mk dim pts [(ct, rows)]).wfEq = true := by
+    (hp : ∀ r ∈ pts, r.length = dim) (hu : Uniform rows) : (wfEq (Mesh.mk dim pts [(ct, rows)])) = true := by
   rw [wfEq_iff]
   refine ⟨hp, ?_, ?_⟩
   · simp [Mesh.cellTypes]
@@ -63,10 +63,10 @@ theorem wfEq_single (dim : Nat) (pts : List (List Int)) (ct : String) (rows : Li
     subst hb
     exact hu
 
-theorem RectGrid.toMesh_wfEq (g : RectGrid) : g.toMesh.wfEq = true :=
+theorem RectGrid.toMesh_wfEq (g : RectGrid) : (wfEq g.toMesh) = true :=
   wfEq_single _ _ _ _ (rectPoints_width _ _ _) (structConn_uniform _ _)
 
-theorem StructGrid.toMesh_wfEq (g : StructGrid) (h : g.ok = true) : g.toMesh.wfEq = true := by
+theorem StructGrid.toMesh_wfEq (g : StructGrid) (h : g.ok = true) : (wfEq g.toMesh) = true := by
   refine wfEq_single _ _ _ _ ?_ (structConn_uniform _ _)
   unfold StructGrid.ok at h
   simp only [Bool.and_eq_true, List.all_eq_true, beq_iff_eq] at h
@@ -82,7 +82,7 @@ theorem typesSpec_self (s : List String) : typesSpec s s = true := by
 theorem sameCells_self (a : List (List Nat)) : sameCells a a = true :=
   (sameCells_iff a a).mpr ⟨rfl, rfl⟩
 
-theorem cellsEqual_same (A B : Mesh) (hA : A.wfEq = true) (hB : B.wfEq = true) (h : A.cells = B.cells) :
+theorem cellsEqual_same (A B : Mesh) (hA : (wfEq A) = true) (hB : (wfEq B) = true) (h : A.cells = B.cells) :
     cellsEqual A B = .ok true := by
   rw [cellsEqual_eq A B hA hB]
   have ht : A.cellTypes = B.cellTypes := by unfold Mesh.cellTypes; rw [h]
@@ -184,7 +184,7 @@ theorem imagePoint_width (g : ImageGrid) (t : List Nat) (p : List Int) (h : imag
   · cases h; simp
   · cases h
 
-theorem ImageGrid.toMesh_wfEq (g : ImageGrid) (m : Mesh) (h : g.toMesh = some m) : m.wfEq = true := by
+theorem ImageGrid.toMesh_wfEq (g : ImageGrid) (m : Mesh) (h : g.toMesh = some m) : (wfEq m) = true := by
   unfold ImageGrid.toMesh at h
   cases hp : g.points with
   | none => rw [hp] at h; cases h
@@ -209,7 +209,7 @@ theorem ImageGrid.toMesh_wfEq (g : ImageGrid) (m : Mesh) (h : g.toMesh = some m)
         exact imagePoint_width g t p ht
     · cases hp
 
-theorem view_wfEq (a : AnyMesh) (ha : a.ok = true) (v : TMesh) (hv : a.view = some v) : v.mesh.wfEq = true := by
+theorem view_wfEq (a : AnyMesh) (ha : a.ok = true) (v : TMesh) (hv : a.view = some v) : (wfEq v.mesh) = true := by
   cases a with
   | explicit m => simp only [AnyMesh.view, Option.some.injEq] at hv; subst hv; exact ha
   | permuted m => simp only [AnyMesh.view, Option.some.injEq] at hv; subst hv; exact ha
@@ -284,7 +284,7 @@ theorem rectEquals_eq (a b : RectGrid) : rectEquals a b = .ok (basicGridEq a.ext
   cases basicGridEq a.ext b.ext <;> simp
 
 theorem structEquals_eq (a b : StructGrid) :
-    structEquals a b = .ok (basicGridEq a.ext b.ext && fuzzyOk a.rel a.abs a.toMesh.pointArr b.toMesh.pointArr) := by
+    structEquals a b = .ok (basicGridEq a.ext b.ext && fuzzyOk a.rel a.abs (pointArr a.toMesh) (pointArr b.toMesh)) := by
   unfold structEquals
   cases basicGridEq a.ext b.ext <;> simp
 
@@ -320,7 +320,7 @@ theorem structEquals_symm (a b : StructGrid) (ha : a.ok = true) (hb : b.ok = tru
   rw [structEquals_eq, structEquals_eq, basicGridEq_symm]
   congr 2
   rw [← hr, ← ht]
-  unfold Mesh.pointArr StructGrid.toMesh
+  unfold pointArr StructGrid.toMesh
   simp only
   apply fuzzyOk_symm _ _ _ _ _ _ (by simp)
   intro h
@@ -345,4 +345,4 @@ theorem imageEquals_symm (a b : ImageGrid) (ha : a.ok = true) (hb : b.ok = true)
     exact fuzzyOk_symm _ _ _ _ _ _ rfl (fun _ => by rw [basis_flat_length a ha, basis_flat_length b hb])
   rw [h1 a.origin, h1 a.spacing, h2]
 
-end Fc
+end Fc.C16
